@@ -232,6 +232,20 @@ Fixpoint compact (out : list tok) (rest : list tok) : list tok :=
       else compact (t :: out) rest'
   end.
 
+(* the selector of a nested ruleset (fix dd2c98e): whitespace is dropped inside an attribute selector, after a kept
+   combinator and before a combinator; out = buf[:j] reversed *)
+Definition is_combinator (d : list Z) : bool := one_of [44; 62; 43; 126] d.
+Fixpoint sel_compact (out : list tok) (inattr : bool) (rest : list tok) : list tok :=
+  match rest with
+  | [] => rev out
+  | t :: rest' =>
+      if is_wstok t && (inattr || match out with last :: _ => is_combinator (snd last) | [] => false end
+                               || match rest' with nxt :: _ => is_combinator (snd nxt) | [] => false end)
+      then sel_compact out inattr rest'
+      else sel_compact (t :: out)
+             (if is_t (fst t) TLeftBracket then true else if is_t (fst t) TRightBracket then false else inattr) rest'
+  end.
+
 Fixpoint declaration_loop (fuel F : nat) (p : parser) : pres (gtype * parser) :=
   match fuel with
   | O => PFuel
@@ -254,7 +268,7 @@ Fixpoint declaration_loop (fuel F : nat) (p : parser) : pres (gtype * parser) :=
             end
         end
       else if is_t t TLeftBrace && (plevel p =? 0) && isstyle p then
-        POk (GBeginRuleset, push_st (set_tok p TWhitespace []) SQualifiedRuleDeclarationList)
+        POk (GBeginRuleset, push_st (set_tok (set_buf p (sel_compact [] false (pbuf p))) TWhitespace []) SQualifiedRuleDeclarationList)
       else if closes t && (plevel p =? 0) then parse_declaration_error F (set_err p true) t d
       else
         let p := adjust_level p t in
